@@ -182,9 +182,11 @@ func (gs *GraphicsState) SetTextMatrix(m model.Matrix) {
 
 // TranslateText translates the text matrix (Td operator)
 func (gs *GraphicsState) TranslateText(tx, ty float64) {
-	// Td is equivalent to: Tm = Tlm * T(tx, ty)
+	// Td: Tm = Tlm = T(tx, ty) x Tlm (ISO 32000-1, Table 108). The offset is
+	// expressed in the coordinate system of the current line, so it is scaled
+	// and rotated by the text line matrix.
 	translation := model.Translate(tx, ty)
-	gs.Text.TextLineMatrix = gs.Text.TextLineMatrix.Multiply(translation)
+	gs.Text.TextLineMatrix = translation.Multiply(gs.Text.TextLineMatrix)
 	gs.Text.TextMatrix = gs.Text.TextLineMatrix
 }
 
